@@ -151,6 +151,7 @@ template <class Compare, class Combine> static void RunSort(const Case &c, const
     std::size_t r = sorter.Merge(lazy);
     { std::ostringstream s; s << r; mret = s.str(); }
     { std::ostringstream s; s << lazy; lazy_used = s.str(); }
+    if (c.mode == "retout") lazy = r;   // lmplz: Output(chain, value returned by Merge)
     // output chain: same entry size, its own block configuration
     Chain outc(ChainConfig(c.rs, c.cbc == 1 ? 2 : c.cbc, std::max<uint64_t>(c.cmem, c.rs * (c.cbc == 1 ? 2 : c.cbc))));
     sorter.Output(outc, lazy);
